@@ -13,6 +13,7 @@ import (
 	"sort"
 	"strconv"
 	"strings"
+	"time"
 
 	apifu "github.com/ccbrown/api-fu"
 	"github.com/ccbrown/api-fu/graphql"
@@ -48,6 +49,9 @@ func encValue(v interface{}) string {
 		return "d" + m.String() + "e" + strconv.Itoa(e) + ";"
 	case string:
 		return "s" + strconv.Itoa(len(v)) + ":" + v
+	case time.Time:
+		c := v.Format(time.RFC3339Nano)
+		return "T" + strconv.Itoa(len(c)) + ":" + c
 	case []interface{}:
 		out := "["
 		for _, x := range v {
@@ -421,7 +425,28 @@ func stdInputTypes() map[string]graphql.NamedType {
 		"y": {Type: graphql.NewListType(graphql.NewNonNullType(graphql.StringType))},
 		"z": {Type: inb},
 	}}
-	return map[string]graphql.NamedType{"EIn": ein, "InA": ina, "InB": inb, "LongInt": apifu.LongIntType}
+	return map[string]graphql.NamedType{"EIn": ein, "InA": ina, "InB": inb, "LongInt": apifu.LongIntType,
+		"DateTime": apifu.DateTimeType}
+}
+
+// the strings the generator offers to DateTime positions, and what time.Time.UnmarshalText says
+// of each (C05's parser oracle table)
+var dtStrings = []string{"2020-01-01T00:00:00Z", "2021-05-06T07:08:09.123456789+02:00", "2020-02-30T00:00:00Z",
+	"2016-12-31T23:59:60Z", "0000-01-01T00:00:00Z", "2020-01-01 00:00:00", "x", "zz", "", "a", "xy", "d", "7", "EA", "EB", "EC", "ED", "b"}
+
+func dtTableSexp() sexp.Node {
+	ks := append([]string{}, dtStrings...)
+	sort.Strings(ks)
+	var out []sexp.Node
+	for _, k := range ks {
+		t := time.Time{}
+		if err := t.UnmarshalText([]byte(k)); err == nil {
+			out = append(out, sexp.L(sexp.Str(k), sexp.Some(sexp.Str(t.Format(time.RFC3339Nano)))))
+		} else {
+			out = append(out, sexp.L(sexp.Str(k), sexp.None()))
+		}
+	}
+	return sexp.T("dt", out...)
 }
 
 func stdInputsSexp() []sexp.Node {
@@ -438,6 +463,7 @@ func stdInputsSexp() []sexp.Node {
 			idef("e", nm("EIn"), sexp.Some(sexp.T("str", sexp.Str("EB")))),
 			idef("n", sexp.T("nn", nm("Int")), sexp.None()))),
 		sexp.L(sexp.Str("LongInt"), sexp.T("scalar", sexp.Sym("longint"))),
+		sexp.L(sexp.Str("DateTime"), sexp.T("scalar", sexp.Sym("datetime"))),
 	}
 }
 
@@ -445,7 +471,7 @@ var argMenu = []argDef{
 	{"k", named("Int"), nil}, {"kn", nonNull(named("Int")), nil}, {"s", named("String"), "d"}, {"b", named("Boolean"), nil},
 	{"xs", listOf(nonNull(named("Int"))), nil}, {"fl", named("Float"), nil}, {"id", named("ID"), nil},
 	{"e", named("EIn"), "EB"}, {"o", named("InA"), nil}, {"os", listOf(nonNull(named("InA"))), nil},
-	{"li", named("LongInt"), nil}, {"kd", nonNull(named("Int")), 4},
+	{"li", named("LongInt"), nil}, {"kd", nonNull(named("Int")), 4}, {"dt", named("DateTime"), nil}, {"dts", listOf(named("DateTime")), nil},
 }
 
 // poolArgs: the arguments of a pool field (the same for every type that has the field)
@@ -476,7 +502,7 @@ func (g *docGen) litOf(t *tyRef, depth int) string {
 		}
 		var items []string
 		for i, n := 0, r.Intn(3); i < n; i++ {
-			items = append(items, g.litOf(t.inner, depth))
+			items = append(items, g.varOrLit(t.inner, depth))
 		}
 		return "[" + strings.Join(items, ", ") + "]"
 	}
@@ -495,10 +521,17 @@ func (g *docGen) litOf(t *tyRef, depth int) string {
 		return rng.Pick(r, []string{"EA", "EB", "EC"})
 	case "LongInt":
 		return rng.Pick(r, []string{"1", "9007199254740991", "-5", "2147483648"})
+	case "DateTime":
+		// an invalid literal is refused by validation (and an invalid default by variable coercion,
+		// with an error located at the default): only the hostile stream writes them, as arguments
+		if g.hostile && !g.constOnly && r.Chance(1, 3) {
+			return strconv.Quote(rng.Pick(r, dtStrings[:7]))
+		}
+		return strconv.Quote(rng.Pick(r, dtStrings[:2]))
 	case "InB":
-		s := "n: " + g.litOf(named("Int"), depth)
+		s := "n: " + g.varOrLit(nonNull(named("Int")), depth)
 		if r.Bool() {
-			s += ", e: " + g.litOf(named("EIn"), depth)
+			s += ", e: " + g.varOrLit(named("EIn"), depth)
 		}
 		return "{" + s + "}"
 	case "InA":
@@ -557,6 +590,8 @@ func (g *docGen) rawOf(t *tyRef, depth int) interface{} {
 		return rng.Pick(r, []interface{}{"EA", "EB", "EC", "ED"})
 	case "LongInt":
 		return rng.Pick(r, []interface{}{1, 9007199254740991.0, -5.0, 2147483648.0})
+	case "DateTime":
+		return rng.Pick(r, dtStrings[:7])
 	case "InB":
 		m := map[string]interface{}{"n": num(2)}
 		if r.Bool() {
@@ -577,6 +612,43 @@ func (g *docGen) rawOf(t *tyRef, depth int) interface{} {
 		return m
 	}
 	return nil
+}
+
+// varOrLit: an element of a list literal / a field of an object literal: now and then a variable
+func (g *docGen) varOrLit(t *tyRef, depth int) string {
+	if !g.constOnly && g.r.Chance(1, 6) {
+		return "$" + g.newVar(t)
+	}
+	return g.litOf(t, depth)
+}
+
+// constLit: a literal without variables (default values are constants)
+func (g *docGen) constLit(t *tyRef) string {
+	old := g.constOnly
+	g.constOnly = true
+	defer func() { g.constOnly = old }()
+	return g.litOf(t, 0)
+}
+
+// newVar declares a typed variable for a position of type t and decides its raw value
+func (g *docGen) newVar(t *tyRef) string {
+	r := g.r
+	v := fmt.Sprintf("a%d", len(g.typed))
+	decl := "$" + v + ": " + t.String()
+	switch y := r.Intn(8); {
+	case y < 4: // given
+		g.typedVals[v] = g.rawOf(t, 1)
+	case y == 4: // explicit null
+		g.typedVals[v] = nil
+	case y == 5 && t.kind != '!': // nullable with a default, absent
+		decl += " = " + g.constLit(t)
+	case y == 6 && t.kind != '!': // nullable with a default, explicit null
+		decl += " = " + g.constLit(t)
+		g.typedVals[v] = nil
+	default: // absent
+	}
+	g.typed = append(g.typed, decl)
+	return v
 }
 
 // argsText: the argument list of one selection of field fname
@@ -601,22 +673,7 @@ func (g *docGen) argsText(fname string) string {
 		case x == 7 && d.ty.kind != '!':
 			parts = append(parts, d.name+": null")
 		default:
-			v := fmt.Sprintf("a%d", len(g.typed))
-			decl := "$" + v + ": " + d.ty.String()
-			switch y := r.Intn(8); {
-			case y < 4: // given
-				g.typedVals[v] = g.rawOf(d.ty, 1)
-			case y == 4: // explicit null
-				g.typedVals[v] = nil
-			case y == 5 && d.ty.kind != '!': // nullable with a default, absent
-				decl += " = " + g.litOf(d.ty, 1)
-			case y == 6 && d.ty.kind != '!': // nullable with a default, explicit null
-				decl += " = " + g.litOf(d.ty, 1)
-				g.typedVals[v] = nil
-			default: // absent
-			}
-			g.typed = append(g.typed, decl)
-			parts = append(parts, d.name+": $"+v)
+			parts = append(parts, d.name+": $"+g.newVar(d.ty))
 		}
 	}
 	if len(parts) == 0 {
